@@ -17,6 +17,8 @@ type cfgT struct {
 	VStore bool
 	Retain bool   // with VStore: the retaining storage (refStore) instead of vstore
 	IDs    string // id alphabet of the KeyGenerator ("" = plain)
+	IDLen  int    // the KeyGenerator pads its ids to this length (0: natural length)
+	Ready  bool   // the middleware is built as New(Config{Store: store}) around a ready-made store
 	// Gran is the ambiguity window around an idle deadline: 0 for vstore (exact TTL), 1 s for the
 	// bundled memory storage (whole-second TTLs on a coarse clock: may end up to 1 s early).
 	Gran time.Duration
@@ -33,6 +35,12 @@ func (c cfgT) String() string {
 	ids := c.IDs
 	if ids == "" {
 		ids = "plain"
+	}
+	if c.IDLen > 0 {
+		ids += fmt.Sprintf("/len%d", c.IDLen)
+	}
+	if c.Ready {
+		st += " middleware=New(Config{Store})"
 	}
 	return fmt.Sprintf("source=%s:%s idle=%s abs=%s storage=%s ids=%s", c.Source, c.Name, c.Idle, c.Abs, st, ids)
 }
@@ -541,6 +549,7 @@ func (j *judge) changeID(o *opObs, what string) bool {
 	}
 	j.w.kill(old, what)
 	j.cur.id = nid
+	j.created = append(j.created, nid) // a later lookup of this request may find it
 	return true
 }
 
